@@ -789,6 +789,10 @@ func caseCorpus(e corpusEntry, idx int) {
 }
 
 func main() {
+	if len(os.Args) >= 6 && os.Args[1] == "e2e" {
+		n, _ := strconv.Atoi(os.Args[5])
+		os.Exit(e2eMain(os.Args[2], os.Args[3], os.Args[4], n))
+	}
 	if len(os.Args) >= 3 && os.Args[1] == "replay" {
 		raw, err := os.ReadFile(os.Args[2])
 		if err != nil {
